@@ -18,6 +18,11 @@ def dist_cross(cases, outs, cfgs):
 
 
 def run(ctx):
+    import vlib
+    for fam in ("twophase", "topn"):
+        res = vlib.run_tlc("DistMerge", f"DistMerge_{fam}_{ctx.tier}.cfg", workers=6, timeout=2400)
+        vlib.tlc_must_pass(res, f"DistMerge/{fam}")
+        ctx.tlc_stats(res, f"DistMerge {fam}: partial/final split equals the single-node answer for every sharding of every small table")
     sqlprop.run_sql_property(ctx, corpus=['scan', 'agg', 'order', 'cjoins'], seeded=[], cfgs=sqlprop.DIST, quick_n=60, thorough_n=1000,
         envs=None, cross=dist_cross,
         rule='Each corpus case is executed through execute_any_distributed with an in-process fragment transport (execute_fragment on a second context over the same Parquet files, Arrow IPC round trip) for clusters of 1,2,3,4,8 participants over several row-group layouts (idle nodes and empty shards arise); the answer must be allowed by SqlSem (order where ORDER BY fixes it) or a refusal.')
@@ -26,4 +31,10 @@ def replay(ctx, obj):
     sqlcheck.replay_sql(ctx, obj)
 
 def selftest(ctx):
-    return sqlprop.selftest(ctx, [])
+    import vlib
+    bad = 0
+    for inv in ("BadCount", "BadHaving", "BadTopN"):
+        res = vlib.run_tlc("DistMerge", f"DistMerge_bad_{inv}.cfg", workers=4, timeout=1200)
+        if res.violated != inv:
+            print(f"selftest: expected {inv} to be violated, got {res.violated}"); bad += 1
+    return 1 if bad else sqlprop.selftest(ctx, [])
